@@ -14,16 +14,96 @@ EXPLANATION = (
     "Abstract interpretation + time typestate of MarkovSequence.sample and of every factorisation's sample_flat / sample_tree: the first draw is from the "
     "(terminal) marginal, every scan step applies the k-th conditional to the carried sample at its source time and draws at the target time (inductive), "
     "samples are appended after (reverse) / prepended before (forward) consistently with evaluate_marginals; every draw uses a fresh sub-key of a split and the "
-    "carried key is the other half; sample_flat is mean + L * base (affine in the standard-normal draw, offset = mean) with the draw shaped like the white-noise axis; "
+    "carried key is the other half; sample_flat is mean + L * base (affine in the standard-normal draw, offset = mean) with one independent draw per entry of the mean and no broadcast of the random term (so the Gram matrix of the map is L L^T per independent column, the covariance of the factorisation); "
     "requested sample shapes are peeled off one axis at a time with independent keys; sample_tree unflattens its own sample_flat."
 )
 LEVEL = "other"
 TECHNIQUE = "abstract interpretation over the AST: Markov time typestate with an inductive scan check, provenance of PRNG keys, value-numbering normal form (affine in the draw)"
 LEVEL_TEXT = (
     "Structural necessary conditions for 'samples are the affine image of the draws defined by the backward factorisation', decided for all posteriors and draws; "
-    "the Gram matrix of the linear map and distributional statements are numerical/statistical and not claimed.  Unit-correctness of apply_flat is C08."
+    "the Gram clause is decided structurally (every factorisation's map is its Cholesky factor applied to independent draws, one per degree of freedom; conditionals are exact affine maps, C08); "
+    "that the stored factor is the Cholesky factor of the smoothing covariance is C03/C08, distributional statements are statistical and not claimed."
 )
 LEVEL_NOTE = "Trusted: typing rules of tdomain.py; random.split returns independent keys; random.normal(key, shape) is a standard-normal draw."
+
+
+def _is_matvec_pattern(pat):
+    """'...jk,...k->...j' up to renaming of the two letters."""
+    if not isinstance(pat, str) or "->" not in pat:
+        return False
+    ins, out = pat.replace(" ", "").split("->")
+    ops = ins.split(",")
+    if len(ops) != 2 or not all(o.startswith("...") for o in ops + [out]):
+        return False
+    a, b, o = ops[0][3:], ops[1][3:], out[3:]
+    return len(a) == 2 and len(b) == 1 and len(o) == 1 and a[0] != a[1] and b == a[1] and o == a[0]
+
+
+def _shape_expr(e, shapes):
+    """Symbolic value of a shape expression (x.shape, x.shape[i], tuples of those)."""
+    if isinstance(e, (tuple, list)):
+        out = []
+        for x in e:
+            v = _shape_expr(x, shapes)
+            if v is None or len(v) != 1:
+                return None
+            out.append(v[0])
+        return tuple(out)
+    if isinstance(e, T.Term) and e.op == "attr" and e.args[1] == "shape" and isinstance(e.args[0], T.Term) and e.args[0].uid in shapes:
+        return shapes[e.args[0].uid]
+    if isinstance(e, T.Term) and e.op == "getitem" and isinstance(e.args[1], int):
+        v = _shape_expr(e.args[0], shapes)
+        if v is not None and -len(v) <= e.args[1] < len(v):
+            return (v[e.args[1]],)
+    return None
+
+
+def _shape_of(t, shapes):
+    """Symbolic shape of the random term; None when it is not determined (mismatching contraction, unknown operation)."""
+    if not isinstance(t, T.Term):
+        return None
+    if t.uid in shapes:
+        return shapes[t.uid]
+    if t.op == "matmul":
+        a, b = _shape_of(t.args[0], shapes), _shape_of(t.args[1], shapes)
+        if a is None or b is None or len(a) < 2 or not b:
+            return None
+        if len(b) == 1:
+            return a[:-1] if a[-1] == b[0] else None
+        if len(b) == 2 and a[-1] == b[0]:
+            return a[:-1] + (b[1],)
+        return None
+    if t.op in ("np.einsum", "linalg.einsum") and len(t.args) == 3 and _is_matvec_pattern(t.args[0]):
+        a, b = _shape_of(t.args[1], shapes), _shape_of(t.args[2], shapes)
+        if a is None or b is None or len(a) < 2 or not b or a[-1] != b[-1]:
+            return None
+        la, lb = a[:-2], b[:-1]
+        if la != lb and la and lb:
+            return None
+        return (la or lb) + (a[-2],)
+    if t.op == "attr" and t.args[1] == "T":
+        a = _shape_of(t.args[0], shapes)
+        return tuple(reversed(a)) if a is not None else None
+    if t.op == "getitem":
+        a = _shape_of(t.args[0], shapes)
+        idx = t.args[1] if isinstance(t.args[1], tuple) else (t.args[1],)
+        if a is None:
+            return None
+        out, k = [], 0
+        for i in idx:
+            if i is None:
+                out.append("1")
+            elif isinstance(i, int):
+                k += 1
+            elif isinstance(i, slice) and i == slice(None) or (isinstance(i, T.Term) and i.op == "slice" and all(x is None for x in i.args)):
+                if k >= len(a):
+                    return None
+                out.append(a[k])
+                k += 1
+            else:
+                return None
+        return tuple(out) + tuple(a[k:])
+    return None
 
 
 def _run_own(chk, S: Session):
@@ -129,25 +209,27 @@ def _run_own(chk, S: Session):
             okm = len(mono) == 1 and mono[0][1] == 1
             lin = mono[0][0] if okm else None
         contr = None
+        dims = {"dense": (("N",), ("N", "N")), "isotropic": (("n", "d"), ("n", "n")), "blockdiag": (("d", "n"), ("d", "n", "n"))}[fam]
+        shapes = {mean.uid: dims[0], chol.uid: dims[1]}
         if lin is not None:
             cur = lin
-            while isinstance(cur, T.Term) and cur.op == "getitem":
-                cur = cur.args[0]
             if isinstance(cur, T.Term) and cur.op == "matmul" and cur.args[0] is chol and cur.args[1] is base:
                 contr = "matmul"
-            if isinstance(cur, T.Term) and cur.op in ("np.einsum", "linalg.einsum") and cur.args[1] is chol and cur.args[2] is base and cur.args[0] == "...jk,...k->...j":
+            if isinstance(cur, T.Term) and cur.op in ("np.einsum", "linalg.einsum") and len(cur.args) == 3 and cur.args[1] is chol and cur.args[2] is base and _is_matvec_pattern(cur.args[0]):
                 contr = "einsum"
-        r2.require(okm and contr is not None, f"{name} affine map", "mean + L @ base (offset = mean, Cholesky factor times the draw)", f"sample = {T.show(out, 5)}", qual)
-        # the draw is shaped like the white-noise axis (columns of L)
+        r2.require(okm and contr is not None, f"{name} affine map", "mean + L @ base (offset = mean, Cholesky factor contracted over its white-noise axis with the draw, nothing else)", f"sample = {T.show(out, 5)}", qual)
+        # one independent standard-normal per degree of freedom: the draw has as many entries as the mean, and L * draw has exactly the
+        # mean's shape (a broadcast of the random term over an axis of the mean makes the components on that axis perfectly correlated)
         shp = base.kwargs.get("shape", base.args[1] if len(base.args) > 1 else None)
-        if fam == "dense":
-            oks = shp is T.mk("attr", (mean, "shape"))
-        elif fam == "isotropic":
-            oks = isinstance(shp, tuple) and len(shp) == 1 and shp[0] is T.mk("getitem", (T.mk("attr", (chol, "shape")), 0)) or (isinstance(shp, tuple) and len(shp) == 1 and shp[0] is T.mk("getitem", (T.mk("attr", (chol, "shape")), 1)))
+        dshape = _shape_expr(shp, shapes)
+        oks = dshape is not None and sorted(dshape) == sorted(dims[0])
+        r2.require(bool(oks), f"{name} draw shape", f"one independent draw per entry of the mean {dims[0]}", f"shape = {T.show(shp, 3)} = {dshape}", qual)
+        if lin is not None and dshape is not None:
+            shapes[base.uid] = dshape
+            lshape = _shape_of(lin, shapes)
+            r2.require(lshape == dims[0], f"{name} no broadcast of the random term", f"L * draw has the mean's shape {dims[0]}", f"L * draw = {T.show(lin, 4)} has shape {lshape}", qual)
         else:
-            cs = T.mk("attr", (chol, "shape"))
-            oks = isinstance(shp, tuple) and len(shp) == 2 and shp[0] is T.mk("getitem", (cs, 0)) and shp[1] is T.mk("getitem", (cs, 2))
-        r2.require(bool(oks), f"{name} draw shape", "draw shaped like the white-noise axis of L", f"shape = {T.show(shp, 3)}", qual)
+            r2.fail(f"{name} no broadcast of the random term", "the random term could not be isolated", qual)
         # sample_tree
         it2 = S.interp()
         rv2 = it2.instantiate(it2.class_value(qual), [mean, chol, tf], {}, "<harness>")
